@@ -573,7 +573,7 @@ func dependsOnBitsetCountGuard(call ssa.Instruction) bool {
 
 func ruleMajority(h *H, rule string) {
 	// the election's fencing quorum: the function calling rpc NewTerm fan-out compares a success counter with `majority`.
-	fn := h.fn(rule, "coordinator/controllers", "shardController", "newTermQuorum")
+	fn := fencingQuorumFn(h, rule)
 	if fn == nil {
 		return
 	}
